@@ -144,12 +144,53 @@ class WordInformationLostE(_Pairs):
 
 
 # ------------------------------------------------------------------------------------------
+_BLEU_VARIANT = None
+BLEU_WITNESS = {"n_gram": 2, "weights": [1.0, 0.0], "input": ["a b"], "target": [["a c"]]}
+
+
+def bleu_variant():
+    """'code' | 'fixed' | 'unknown': what the tree under test does on the witness of
+    bleu_value_is_number_refuted (n_gram=2, weights=[1,0], "a b" vs "a c"): nan = the code as it was
+    (finding C08-bleu-zero-weight-nan), 0.5 = the product form (repaired).  Anything else is tied to
+    the V_code model, so the correspondence reports it."""
+    global _BLEU_VARIANT
+    if _BLEU_VARIANT is None:
+        import math
+        w = BLEU_WITNESS
+        try:
+            m = M.BLEUScore(n_gram=w["n_gram"], weights=torch.tensor(w["weights"]))
+            m.update(w["input"], w["target"])
+            a = float(m.compute())
+            b = float(Fn.bleu_score(w["input"], w["target"], n_gram=w["n_gram"], weights=torch.tensor(w["weights"])))
+        except Exception:
+            a = b = -1.0
+        if math.isnan(a) and math.isnan(b):
+            _BLEU_VARIANT = "code"
+        elif abs(a - 0.5) < 1e-6 and abs(b - 0.5) < 1e-6:
+            _BLEU_VARIANT = "fixed"
+        else:
+            _BLEU_VARIANT = "unknown"
+    return _BLEU_VARIANT
+
+
 class BLEUScoreE(Entry):
     """update(input: str | Sequence[str], target: Sequence[str | Sequence[str]]).
     Every generated batch is valid PER UPDATE: the functional raises when one call's corpus is too
     short for n_gram and the class applies that test to each update separately."""
-    name, cls, model, fn_model = "BLEUScore", M.BLEUScore, "text_bleu", "text_bleu_fn"
+    name, cls = "BLEUScore", M.BLEUScore
     family = "additive"
+
+    # The Coq model has both behaviours of _bleu_score_compute: V_code (0 * log 0 = nan with a zero weight)
+    # and V_fixed (fixes/bleu-zero-weight.patch: a zero-weighted order is ignored).  The tree under test
+    # decides which one it is tied to, by the witness of the refuted theorem.
+    @property
+    def model(self):
+        return "text_bleu_fixed" if bleu_variant() == "fixed" else "text_bleu"
+
+    @property
+    def fn_model(self):
+        return "text_bleu_fixed_fn" if bleu_variant() == "fixed" else "text_bleu_fn"
+
     tol = TOL32
     min_batch = 1
     min_compute = 1
